@@ -3,11 +3,12 @@
 # run the quick checks named in meta.json caught_by against it (VERIF_REPO), and report whether each still raises a VIOLATION.
 # Evidence/replays of these runs go to /tmp/lsfverif-scratch-out (never into /verif/evidence).
 PAT=${1:-*}
-WT=/tmp/wt-regress
+WT=/tmp/wt-regress-$$
+HERE="$(cd "$(dirname "$0")/.." && pwd)"
 git -C /repo worktree remove --force $WT 2>/dev/null
 git -C /repo worktree add --detach $WT HEAD -q || exit 2
 trap 'git -C /repo worktree remove --force $WT' EXIT
-cd /verif
+cd $HERE
 miss=0
 for d in seeded/$PAT/; do
   id=$(basename $d)
@@ -18,8 +19,8 @@ for d in seeded/$PAT/; do
   checks=$(jq -r '.caught_by[]' $d/meta.json | sed 's/(.*//' | sort -u)
   line="$id"
   for c in $checks; do
-    VERIF_REPO=$WT ./vf check $c > /tmp/regress.out 2>&1; rc=$?
-    n=$(grep -c '^VIOLATION' /tmp/regress.out)
+    VERIF_REPO=$WT VERIF_SCRATCH_OUT=/tmp/lsfverif-scratch-out-$$ ./vf check $c > /tmp/regress.$$.out 2>&1; rc=$?
+    n=$(grep -c '^VIOLATION' /tmp/regress.$$.out)
     if [ $rc -eq 1 ] && [ $n -gt 0 ]; then line="$line $c:CAUGHT($n)"; else line="$line $c:MISSED(rc=$rc)"; miss=1; fi
   done
   echo "$line"
